@@ -2,4 +2,4 @@ From Coq Require Import Extraction ExtrOcamlBasic.
 From F8 Require Import Base.Conv C26.SMap C26.PersistSpec C26.Spec_C26 C26.MemPersist C26.FilePersist.
 Extraction Language OCaml.
 Extraction "../ocaml/gen/C26/model.ml" keep_types mem_outputs file_outputs spec_outputs c26_ok
-  ops_wf zero_free reopen_safe mem_outputs_orig.
+  ops_wf zero_free reopen_safe mem_outputs_orig file_outputs_orig c26_ok_file clip.
